@@ -1,7 +1,8 @@
 /-
 C07 — rank / median / mean filters, template_match, find
 (`_convolve.cpp`: `rank_filter<T>`, `mean_filter<T>`, `template_match<T>`, `find2d<T>`;
-`convolve.py`: the wrappers). Values are exact integers (integer dtypes, or integer-valued floats).
+`convolve.py`: the wrappers). Values are exact integers (integer dtypes, or integer-valued floats);
+`tmAtWrap` redoes `template_match` in the wrap-around arithmetic of an integer image dtype.
 -/
 import Mahotas.Model.Border
 import Mahotas.Model.DType
@@ -107,6 +108,35 @@ def tmSpecAt (m : Mode) (f : Img Int) (tshape : List Nat) (t : Array Int) (p : L
     | some q => (f.getD q 0 - t.getD j 0) ^ 2
     | none => 0).sum
 
+/-! ### template_match in the arithmetic of the image dtype `T` -/
+
+/-- the type in which C++ evaluates `val - tj`, `delta*delta` and `diff2 + delta*delta` for operands
+    of type `T`: the integral promotions turn `bool`, 8- and 16-bit operands (signed or unsigned) into
+    `int` (32 bits, wrapping under `-fno-strict-overflow` — `65535*65535` does overflow `int`);
+    32- and 64-bit operands stay in `T` (unsigned: modular by the standard; signed: wraps, same flag). -/
+def promote (dt : DT) : DT := if dt.card ≤ 65536 then dtI 32 else dt
+
+/-- conversion of a value of the promoted type back to `T` (`const T delta = …`, `diff2 += …`):
+    reduction modulo `2^bits` into the range of `T`; for `bool` any non-zero value becomes `true`. -/
+def castT (dt : DT) (x : Int) : Int :=
+  if dt.isBool then (if x ≠ 0 then 1 else 0) else dt.wrap x
+
+/-- `template_match<T>` at pixel `p` in the arithmetic of the image dtype, operation by operation:
+    `const T delta = (val > tj ? val - tj : tj - val); diff2 += delta*delta;` with `T diff2 = T(0)`.
+    The subtraction, the product and the sum are evaluated in the promoted type (`promote`), each
+    wrapping there; `delta` and the new `diff2` are converted back to `T` (`castT`). Samples and
+    template entries are the stored values (inside the range of `T`); floats are not modelled here. -/
+def tmAtWrap (dt : DT) (m : Mode) (f : Img Int) (tshape : List Nat) (t : Array Int) (p : List Int) : Int :=
+  let ar := promote dt
+  (List.range (shapeSize tshape)).foldl (fun diff2 j =>
+    match fixPos m f.shape (addPos p (offsetOf tshape j)) with
+    | some q =>
+      let val := f.getD q 0
+      let tj := t.getD j 0
+      let delta := castT dt (ar.wrap (if val > tj then val - tj else tj - val))
+      castT dt (ar.wrap (diff2 + ar.wrap (delta * delta)))
+    | none => diff2) 0
+
 /-- the whole centred window lies inside the image (where `constant` mode is compared) -/
 def windowInside (shape tshape : List Nat) (p : List Int) : Bool :=
   let c := centreOf tshape
@@ -175,7 +205,8 @@ def handle (a : Args) : String :=
     s!"sum={showInts (sp.map (·.1))} n={showNats (sp.map (·.2))} model={showMean (ps.map (meanParts m f fp))}"
   | "tm" =>
     let ps := allPos shape
-    s!"spec={showInts (ps.map (tmSpecAt m f bshape bc))} model={showInts (ps.map (tmAt m f bshape bc))} obs={showBools (ps.map (windowInside shape bshape))}"
+    let dt := DT.ofName (a.str "dt")
+    s!"spec={showInts (ps.map (tmSpecAt m f bshape bc))} model={showInts (ps.map (tmAt m f bshape bc))} wrap={showInts (ps.map (tmAtWrap dt m f bshape bc))} obs={showBools (ps.map (windowInside shape bshape))}"
   | "find" =>
     let t : Img Int := { shape := bshape, data := bc }
     let marks := findMarks f t
